@@ -1,10 +1,113 @@
-/- Line-protocol driver for C04 (stub until the property's models exist). -/
+/-
+  Line-protocol driver for C04 (receive loops of the three native transports).
+
+    rmcp <maxRetries> <ignoreRqSeq> <ignoreSduLen> <requeue> <slave> <nextSeq> <queue>
+         <rsSa> <netfn> <lun> <cmd> <payload> <routing> <ev>*
+        queue   ::= - | hex,hex,…          routing ::= - | rq:rs:ch,rq:rs:ch,…
+        ev      ::= F<hex> | L<hex> | M | T           (F- is an empty payload)
+      -> <outcome> seq=<n> q=<queue> consumed=<n> sends=<n> tx=<hex>
+    i2c <d|a> <nextSeq> <rsSa> <netfn> <lun> <cmd> <payload> <ev>*
+        ev      ::= F<dt>:<hex> | L<dt>:<hex> | E<dt> | I
+      -> <outcome> seq=<n> consumed=<n> sends=<n> tx=<hex>
+    oracle <checkSeq> <netfn> <lun> <cmd> <seq> <hex>*      (Spec.allowedAnswers)
+      -> allowed <hex>*
+    classify <checkSeq> <netfn> <lun> <cmd> <seq> <hex>     (Spec predicates on one frame)
+      -> reply=<0|1> unrelated=<0|1> bareack=<0|1>
+    consts -> generated constants
+  outcome ::= ok <hex> | <error tag>
+-/
 import PyIpmi.Base.Proto
-open PyIpmi.Proto
+import PyIpmi.Model.RmcpLoop
+import PyIpmi.Model.IpmbDevLoop
+import PyIpmi.Spec.Attribution
+open PyIpmi PyIpmi.Proto PyIpmi.Loops
+
+def showOut (o : Outcome Frame) : String :=
+  match o with
+  | .ok d => "ok " ++ toHex d
+  | e => e.tag
+
+def parseBool (s : String) : Option Bool :=
+  if s == "1" then some true else if s == "0" then some false else none
+
+def parseQueue (s : String) : Option (List Frame) :=
+  if s == "-" then some [] else (s.splitOn ",").mapM ofHex
+
+def showQueue (q : List Frame) : String :=
+  if q.isEmpty then "-" else ",".intercalate (q.map toHex)
+
+def parseHop (s : String) : Option Hop :=
+  match s.splitOn ":" with
+  | [a, b, c] => do
+    let a ← a.toNat?
+    let b ← b.toNat?
+    let c ← c.toNat?
+    pure ⟨a, b, c⟩
+  | _ => none
+
+def parseRouting (s : String) : Option (List Hop) :=
+  if s == "-" then some [] else (s.splitOn ",").mapM parseHop
+
+def parseRxEvent (s : String) : Option RxEvent :=
+  if s == "T" then some .timeout
+  else if s == "M" then some .malformed
+  else if s.startsWith "F" then (ofHex (s.drop 1).toString).map .frame
+  else if s.startsWith "L" then (ofHex (s.drop 1).toString).map .badLen
+  else none
+
+def parseDtHex (s : String) : Option (Nat × Frame) :=
+  match s.splitOn ":" with
+  | [a, b] => do
+    let a ← a.toNat?
+    let b ← ofHex b
+    pure (a, b)
+  | _ => none
+
+def parseI2cEvent (s : String) : Option I2cEvent :=
+  if s == "I" then some .idle
+  else if s.startsWith "E" then ((s.drop 1).toString.toNat?).map .rdError
+  else if s.startsWith "F" then (parseDtHex (s.drop 1).toString).map fun p => .frame p.1 p.2
+  else if s.startsWith "L" then (parseDtHex (s.drop 1).toString).map fun p => .badLen p.1 p.2
+  else none
+
+def b01 (b : Bool) : String := if b then "1" else "0"
 
 def handleC04 (line : String) : String :=
   match tokens line with
   | ["ping"] => "pong"
+  | ["consts"] =>
+    s!"send={Gen.Loops04.cmdSendMessage} mod={Gen.Loops04.rmcpSeqMod} inner={Gen.Loops04.rmcpInnerExtra} outer={Gen.Loops04.rmcpOuterExtra} i2cTimeout={Gen.Loops04.ipmbdevTimeoutTicks} i2cRetries={Gen.Loops04.ipmbdevMaxRetries}"
+  | "rmcp" :: mr :: igs :: igl :: rq :: slave :: seq :: q :: rsSa :: netfn :: lun :: cmd :: pl :: rt :: evs =>
+    match mr.toNat?, parseBool igs, parseBool igl, parseBool rq, slave.toNat?, seq.toNat?, parseQueue q with
+    | some mr, some igs, some igl, some rq, some slave, some seq, some q =>
+      match rsSa.toNat?, netfn.toNat?, lun.toNat?, cmd.toNat?, ofHex pl, parseRouting rt, evs.mapM parseRxEvent with
+      | some rsSa, some netfn, some lun, some cmd, some pl, some rt, some evs =>
+        let cfg : Cfg := { maxRetries := mr, ignoreRqSeq := igs, ignoreSduLength := igl, requeue := rq, slaveAddr := slave }
+        let req : Req := { rsSa := rsSa, netfn := netfn, lun := lun, cmd := cmd, payload := pl, routing := rt }
+        let r := rmcpRequest cfg ⟨seq, q⟩ req evs
+        s!"{showOut r.out} seq={r.st.nextSeq} q={showQueue r.st.queue} consumed={evs.length - r.rest.length} sends={r.tx.length} tx={toHex (txData cfg req r.st.nextSeq)}"
+      | _, _, _, _, _, _, _ => "bad-op"
+    | _, _, _, _, _, _, _ => "bad-op"
+  | "i2c" :: kind :: seq :: rsSa :: netfn :: lun :: cmd :: pl :: evs =>
+    match seq.toNat?, rsSa.toNat?, netfn.toNat?, lun.toNat?, cmd.toNat?, ofHex pl, evs.mapM parseI2cEvent with
+    | some seq, some rsSa, some netfn, some lun, some cmd, some pl, some evs =>
+      let cfg := if kind == "d" then I2cCfg.ipmbdev else I2cCfg.aardvark
+      let req : Req := { rsSa := rsSa, netfn := netfn, lun := lun, cmd := cmd, payload := pl }
+      let r := i2cRequest cfg seq req evs
+      s!"{showOut r.out} seq={r.nextSeq} consumed={evs.length - r.rest.length} sends={r.tx.length} tx={toHex (encodeIpmbMsg (mkHdr cfg.slaveAddr req r.nextSeq) pl)}"
+    | _, _, _, _, _, _, _ => "bad-op"
+  | "oracle" :: cs :: netfn :: lun :: cmd :: seq :: frames =>
+    match parseBool cs, netfn.toNat?, lun.toNat?, cmd.toNat?, seq.toNat?, frames.mapM ofHex with
+    | some cs, some netfn, some lun, some cmd, some seq, some frames =>
+      let a := Spec.Attribution.allowedAnswers cs ⟨netfn, lun, cmd, seq⟩ frames
+      " ".intercalate ("allowed" :: a.map toHex)
+    | _, _, _, _, _, _ => "bad-op"
+  | ["classify", cs, netfn, lun, cmd, seq, f] =>
+    match parseBool cs, netfn.toNat?, lun.toNat?, cmd.toNat?, seq.toNat?, ofHex f with
+    | some cs, some netfn, some lun, some cmd, some seq, some f =>
+      let r : Spec.Attribution.ReqId := ⟨netfn, lun, cmd, seq⟩
+      s!"reply={b01 (decide (Spec.Attribution.isReplyTo cs r f))} unrelated={b01 (decide (Spec.Attribution.Unrelated cs r f))} bareack={b01 (decide (Spec.Attribution.BareAck f))}"
+    | _, _, _, _, _, _ => "bad-op"
   | _ => "bad-op"
 
 def main : IO Unit := do
